@@ -25,6 +25,7 @@ def Hint.origin? : Hint → Option Nat
   | .tupleFixed _ => some cTuple
   | .seq o _ | .reit o _ | .quasi o _ | .mapping o _ _ => some o
   | .typeOf _ => some cType
+  | .generic c _ => some c
   | _ => none
 
 variable (W : World) (conf : Conf) (r : Nat) (st : Strategy)
@@ -65,6 +66,7 @@ def hasCause : Hint → Obj → Bool
          | .On => (!k.ignorable && x.items.any (fun y => hasCause k y)) || (!v.ignorable && x.vals.any (fun y => hasCause v y))))
   | .typeOf cs, x => !typeOfTest W cs x
   | .annotated h vs, x => (!h.ignorable && hasCause h x) || !vs.all (fun v => v.holds W x)
+  | .generic c bs, x => !W.sub x.cls c || basesCause bs x
 /-- union finder: `false` as soon as one member is satisfied -/
 def unionCause : List Hint → Obj → Bool
   | [], _ => true
@@ -73,6 +75,10 @@ def unionCause : List Hint → Obj → Bool
     else match h.origin? with
       | some o => if !W.sub x.cls o then unionCause hs x else (hasCause h x && unionCause hs x)
       | none => hasCause h x && unionCause hs x
+/-- generic finder: the first pseudo-superclass with a cause -/
+def basesCause : List Hint → Obj → Bool
+  | [], _ => false
+  | h :: hs, x => hasCause h x || basesCause hs x
 /-- fixed-tuple positions, ignorable children skipped -/
 def zipCause : List Hint → List Obj → Bool
   | h :: hs, y :: ys => (!h.ignorable && hasCause h y) || zipCause hs ys
